@@ -359,3 +359,18 @@ Proof.
   split; [reflexivity|]. eexists _, _, _. split; [vm_compute; reflexivity|]. split; [reflexivity|].
   vm_compute. intros H. apply H. reflexivity.
 Qed.
+
+(* the old PYPOWER proxy: a gen with max_q_mvar = 0 was exempt although it violates its limit *)
+Definition gz : list gen := [mkGen 0 0 0 0 0 1 true true; mkGen 1 1 (1#2) (-13#8) 0 0 true false].
+Lemma pypower_old_zero_limit_refuted :
+  viol_max_old_pypower gz [] [0; 7#4] = [] /\ viol_max gz [] [0; 7#4] = [1%nat].
+Proof. vm_compute. split; reflexivity. Qed.
+
+(* old rule: with a limited (switched-off) gen in row 1 the slack gen of bus 2 (row 2) was addressed as row 1 *)
+Definition grow : list gen := [mkGen 0 0 0 0 0 0 true true; mkGen 1 1 (3#16) (-1) 1 0 false false; mkGen 2 2 1 (-1) 1 0 true true].
+Lemma pfsoln_old_row_index_refuted : gens_at_bus_old grow 2 = [1%nat] /\ gens_at_bus_rows grow 2 = [2%nat].
+Proof. vm_compute. split; reflexivity. Qed.
+(* when every row is on (the Newton-Raphson path) positions and rows coincide *)
+Lemma positions_are_rows_when_all_on : gens_at_bus_old (map (fun g => mkGen (g_pbus g) (g_bus g) (g_pg g) (g_qmin g) (g_qmax g) (g_w g) true (g_ref g)) grow) 2
+                                      = gens_at_bus_rows (map (fun g => mkGen (g_pbus g) (g_bus g) (g_pg g) (g_qmin g) (g_qmax g) (g_w g) true (g_ref g)) grow) 2.
+Proof. vm_compute. reflexivity. Qed.
